@@ -114,9 +114,13 @@ var invalidYAML = []string{"a: [1, 2", "a:\n\t- b", "\"unterminated", "{a: 1", "
 func (g *fgen) call(apis []string, cfgs []string) *callSpec {
 	api := apis[g.r.Intn(len(apis))]
 	c := &callSpec{api: api, cfg: cfgs[g.r.Intn(len(cfgs))]}
-	if (api == "ssnap" || api == "sjson") && (c.cfg == "f" || c.cfg == "e") {
+	if (api == "ssnap" || api == "sjson") && (c.cfg == "f" || c.cfg == "e" || c.cfg == "fn") {
 		// premise (DESIGN.md 6.0): a standalone Filename pattern is not shared between tests
-		c.cfg = "c"
+		if c.cfg == "fn" {
+			c.cfg = ""
+		} else {
+			c.cfg = "c"
+		}
 	}
 	switch api {
 	case "snapshot":
@@ -273,6 +277,7 @@ func stdConfigs() map[string]*Cfg {
 		"uf": {Dir: sp("@/snaps"), Update: bp(false)},
 		"e":  {Dir: sp("@/snaps"), Filename: sp("ext"), Ext: sp(".txt")},
 		"d2": {Dir: sp("@/other/deep")},
+		"fn":  {Filename: sp("custom")}, // default directory, custom file name
 		"bad": {Dir: sp("@/blocker/snaps")}, // "blocker" is a regular file: nothing can be created below it
 	}
 }
